@@ -356,6 +356,7 @@ def exRegion (ed : Ed) (loc : Bytes) : R (Nat × Int × Int) :=
     | none => none
     | some ((b, e), ed) =>
       if b == -7 && e == -7 then some ((1, -1, -1), ed) else
+      if e ≤ b then some ((1, -1, -1), ed) else      -- the second address precedes the first
       let b := if b < 0 && e == 0 then 0 else b
       let len := ed.len
       if b < 0 || b ≥ len then some ((1, b, e), ed)
